@@ -9,7 +9,7 @@ META = {
             '1-6 states (epsilon cycles, dead ends, F empty/full, empty alphabet, plain dict / defaultdict); result compared with '
             'the Lean model (exact, names included) and checked directly: valid total DFA, same alphabet, language equal (exact '
             'product BFS, all word lengths), q0 = closure name, every state reachable; non-trivial = NFA with an epsilon move and '
-            '>=2 subset states; distinct by content; also NFAs with 13-15 states whose subsets share their 12 smallest names, unusual state names (\'\', \'p,q\', \'{p,q}\': the recorded name-collision finding is decided per case), in-place-edit history (determinise, edit delta, determinise again)',
+            '>=2 subset states; distinct by content; also NFAs with 13-15 states whose subsets share their 12 smallest names, unusual state names (\'\', \'p,q\', \'{p,q}\': the recorded name-collision finding is decided per case), in-place-edit history (determinise, edit delta, determinise again); shortcut-free epsilon chains through 6-13 numbered states',
     'assumptions': ['NFA.valid (constructor)', 'print_state_set is injective on the reachable subsets (decided per case by the reference; a case where the set notation itself merges two subsets is the recorded finding nfa2dfa-subset-name-collision)'],
     'trusted_base': ['Spec: Gamba/Spec/Automata.lean'],
 }
@@ -28,6 +28,10 @@ def cases(ctx):
         if (thorough and ctx.mine(i)) or (not thorough and i % 16 == 3):
             yield {'N': s}
     rng = ctx.rng
+    for i in range(40 if not thorough else 400):        # shortcut-free epsilon chains through 6-13 numbered states (q1 / q10, q9 / q10)
+        s = gen.eps_chain_nfa(rng)
+        if not thorough or ctx.mine(i):
+            yield {'N': s, 'sched': [rng.randint(0, 5) for _ in range(8)], 'edit': False}
     for i in range(1200 if not thorough else 12000):
         s = gen.big_subset_nfa(rng) if i % 40 == 11 else gen.random_nfa(rng, names=ODD if i % 25 == 7 else None)
         if not thorough or ctx.mine(i):
